@@ -48,20 +48,42 @@ def big_cases(tier, rng):
         n = rng.choice([3000, 5000, 8000, 20000]); x = rng.choice([0, 1, 2, n - 2, n - 1, n])
         yield {"n": n, "x": x, "cl": rng.choice(["1/2", "19/20", "99/100"]), "alt": rng.choice(list(CALT)),
                "p": rng.choice([None, "0", "1/4", "1/2", "3/4", "1", "1/1000"]), "kw": None, "big": True}
+    # several dimensions extreme at once: tens of thousands of trials, a handful of successes or failures, confidence levels
+    # within 1e-4 ... 1e-9 of 1 (and very low ones); plain calls are certified, calls with a starting point compared with them
+    for _ in range(30 if tier == "quick" else 300):
+        n = rng.choice([20000, 30011, 50000]); k = rng.randint(0, 16); x = rng.choice([k, n - k])
+        yield {"n": n, "x": x, "cl": rng.choice(["9999/10000", "99999/100000", "999999/1000000", "999999/1000000", "99999999/100000000", "999999999/1000000000", "1/1000000"]),
+               "alt": rng.choice(list(CALT)), "p": rng.choice([None, None, None, "1/2", "1/1000", "x/n"]), "kw": None, "big": True}
+    for _ in range(20 if tier == "quick" else 200):
+        n = rng.randint(1, 40); x = rng.randint(0, n)
+        yield {"n": n, "x": x, "cl": rng.choice(["999999/1000000", "99999999/100000000", "999999999/1000000000", "1/1000000", "1/1000000000"]),
+               "alt": rng.choice(list(CALT)), "p": rng.choice([None, None, "1/2", "x/n"]), "kw": None, "big": True}
+
+
+class Ratio:
+    """an exact non-normalised ratio of two (huge) integers: comparisons by cross-multiplication, no gcd"""
+    def __init__(self, num, den): self.num, self.den = num, den
+    def __le__(self, a): a = Fraction(a); return self.num * a.denominator <= a.numerator * self.den
+    def __ge__(self, a): a = Fraction(a); return self.num * a.denominator >= a.numerator * self.den
+    def __float__(self): return self.num / self.den
 
 
 def tails_big(n, x, p):
-    """exact (P(X>=x), P(X<=x)) for x within a few units of 0 or n: only the short side is summed"""
-    q = 1 - p
-    def low(k):      # P(X <= k), k small
-        if k < 0: return Fraction(0)
-        return sum(math.comb(n, j) * p**j * q**(n - j) for j in range(k + 1))
-    def high(k):     # P(X >= k), n - k small
-        if k > n: return Fraction(0)
-        return sum(math.comb(n, j) * p**j * q**(n - j) for j in range(k, n + 1))
+    """exact (P(X>=x), P(X<=x)) for x within a few units of 0 or n: only the short side is summed, in big-integer form:
+    p = a/D, q = b/D; sum_j C(n,j) a^j b^(n-j) / D^n with the common power of b (or a) factored out"""
+    p = Fraction(p)
+    a_, D = p.numerator, p.denominator; b_ = D - a_
+    T = D**n
+    def low_i(k):        # D^n P(X <= k), k small
+        if k < 0: return 0
+        return sum(math.comb(n, j) * a_**j * b_**(k - j) for j in range(k + 1)) * b_**(n - k)
+    def high_i(k):       # D^n P(X >= k), n - k small
+        if k > n: return 0
+        m = n - k
+        return sum(math.comb(n, n - i) * b_**i * a_**(m - i) for i in range(m + 1)) * a_**(n - m)
     if x <= n - x:
-        return 1 - low(x - 1), low(x)
-    return high(x), 1 - high(x + 1)
+        return Ratio(T - low_i(x - 1), T), Ratio(low_i(x), T)
+    return Ratio(high_i(x), T), Ratio(T - high_i(x + 1), T)
 
 
 def count_objects(c):
@@ -143,11 +165,11 @@ def oracle(c, o):
     if want_low:
         p1, p2 = brackets(L)
         if not ((p1 == 0 or tails(n, x, p1)[0] <= a) and (p2 == 1 or tails(n, x, p2)[0] >= a)):
-            return {"why": f"lower limit {L}: P_p(X>={x}) = {float(tails(n, x, Fraction(L))[0])} is not the tail level {float(a)} (n={n}, cl={c['cl']}, {c['alt']})", "cls": "binom_conf_interval:lower-limit"}
+            return {"why": f"lower limit {L}: P_p(X>={x}) = {float(tails(n, x, Fraction(L))[0])} is not the tail level {float(a)} (n={n}, cl={c['cl']}, {c['alt']}, p={c['p']})", "cls": "binom_conf_interval:lower-limit"}
     if want_upp:
         q1, q2 = brackets(U)
         if not ((q2 == 1 or tails(n, x, q2)[1] <= a) and (q1 == 0 or tails(n, x, q1)[1] >= a)):
-            return {"why": f"upper limit {U}: P_p(X<={x}) = {float(tails(n, x, Fraction(U))[1])} is not the tail level {float(a)} (n={n}, cl={c['cl']}, {c['alt']})", "cls": "binom_conf_interval:upper-limit"}
+            return {"why": f"upper limit {U}: P_p(X<={x}) = {float(tails(n, x, Fraction(U))[1])} is not the tail level {float(a)} (n={n}, cl={c['cl']}, {c['alt']}, p={c['p']})", "cls": "binom_conf_interval:upper-limit"}
     if Fraction(c["cl"]) >= Fraction(1, 2) and c["alt"] == "two-sided" and not (L - 1e-9 <= x / n <= U + 1e-9):
         return {"why": f"x/n={x / n} outside [{L},{U}]", "cls": "binom_conf_interval:mle-outside"}
     if "warm" in o:
